@@ -106,6 +106,7 @@ def install_all(E, quiet=True, hashes=True, secp=True):
     if quiet: install_quiet_stubs(E)
     if hashes: install_hash_stubs(E)
     if secp: install_secp_stubs(E)
+    install_rbtree(E)
 
 # ------------------------------------------------------------------ signature-check oracle of shims/sess.cpp (OracleChecker)
 def install_oracle(E):
@@ -155,3 +156,89 @@ def install_oracle_uf(E):
         calls = list(st.aux.get('oracle', [])); calls.append(((kind, tuple(aa), tuple(bb), tuple(cc), sv), t)); st.aux['oracle'] = calls
         return b2i(t)
     E.stubs['vf_oracle'] = vf_oracle
+
+# ------------------------------------------------------------------ libstdc++ red-black tree runtime (std::map / std::set), precise on concrete pointers
+def install_rbtree(E):
+    RED, BLACK = 0, 1
+    def g(E, st, n, off): return E.load(st, n + off, 8)
+    def s_(E, st, n, off, v): E.store(st, n + off, 8, v)
+    def color(E, st, n): return E.load(st, n, 4)
+    def setcolor(E, st, n, c): E.store(st, n, 4, c)
+    P, L, R_ = 8, 16, 24
+    def rot_left(E, st, x, hdr):
+        y = g(E, st, x, R_)
+        s_(E, st, x, R_, g(E, st, y, L))
+        if g(E, st, y, L): s_(E, st, g(E, st, y, L), P, x)
+        s_(E, st, y, P, g(E, st, x, P))
+        if x == g(E, st, hdr, P): s_(E, st, hdr, P, y)
+        elif x == g(E, st, g(E, st, x, P), L): s_(E, st, g(E, st, x, P), L, y)
+        else: s_(E, st, g(E, st, x, P), R_, y)
+        s_(E, st, y, L, x); s_(E, st, x, P, y)
+    def rot_right(E, st, x, hdr):
+        y = g(E, st, x, L)
+        s_(E, st, x, L, g(E, st, y, R_))
+        if g(E, st, y, R_): s_(E, st, g(E, st, y, R_), P, x)
+        s_(E, st, y, P, g(E, st, x, P))
+        if x == g(E, st, hdr, P): s_(E, st, hdr, P, y)
+        elif x == g(E, st, g(E, st, x, P), R_): s_(E, st, g(E, st, x, P), R_, y)
+        else: s_(E, st, g(E, st, x, P), L, y)
+        s_(E, st, y, R_, x); s_(E, st, x, P, y)
+    def insert(E, st, fr, I, A):
+        left, x, p, hdr = A
+        for k, v in enumerate(A):
+            if is_sym(v):
+                args = [(at, av, info) for (at, av, info) in I['args'] if av is not None]
+                return ('forks', E.fork_arg(st, fr, I, args, k, 'rb-tree insert argument'))
+        s_(E, st, x, P, p); s_(E, st, x, L, 0); s_(E, st, x, R_, 0); setcolor(E, st, x, RED)
+        if left & 1:
+            s_(E, st, p, L, x)
+            if p == hdr: s_(E, st, hdr, P, x); s_(E, st, hdr, R_, x)
+            elif p == g(E, st, hdr, L): s_(E, st, hdr, L, x)
+        else:
+            s_(E, st, p, R_, x)
+            if p == g(E, st, hdr, R_): s_(E, st, hdr, R_, x)
+        while x != g(E, st, hdr, P) and color(E, st, g(E, st, x, P)) == RED:
+            xp = g(E, st, x, P); xpp = g(E, st, xp, P)
+            if xp == g(E, st, xpp, L):
+                y = g(E, st, xpp, R_)
+                if y and color(E, st, y) == RED:
+                    setcolor(E, st, xp, BLACK); setcolor(E, st, y, BLACK); setcolor(E, st, xpp, RED); x = xpp
+                else:
+                    if x == g(E, st, xp, R_): x = xp; rot_left(E, st, x, hdr)
+                    setcolor(E, st, g(E, st, x, P), BLACK); setcolor(E, st, xpp, RED); rot_right(E, st, xpp, hdr)
+            else:
+                y = g(E, st, xpp, L)
+                if y and color(E, st, y) == RED:
+                    setcolor(E, st, xp, BLACK); setcolor(E, st, y, BLACK); setcolor(E, st, xpp, RED); x = xpp
+                else:
+                    if x == g(E, st, xp, L): x = xp; rot_right(E, st, x, hdr)
+                    setcolor(E, st, g(E, st, x, P), BLACK); setcolor(E, st, xpp, RED); rot_left(E, st, xpp, hdr)
+        setcolor(E, st, g(E, st, hdr, P), BLACK)
+        return None
+    E.stubs['_ZSt29_Rb_tree_insert_and_rebalancebPSt18_Rb_tree_node_baseS0_RS_'] = insert
+    def incr(E, st, fr, I, A):
+        x = A[0]
+        if is_sym(x): raise Unsupported('symbolic tree node')
+        if g(E, st, x, R_):
+            x = g(E, st, x, R_)
+            while g(E, st, x, L): x = g(E, st, x, L)
+        else:
+            y = g(E, st, x, P)
+            while x == g(E, st, y, R_): x = y; y = g(E, st, y, P)
+            if g(E, st, x, R_) != y: x = y
+        return x
+    E.stubs['_ZSt18_Rb_tree_incrementPSt18_Rb_tree_node_base'] = incr
+    E.stubs['_ZSt18_Rb_tree_incrementPKSt18_Rb_tree_node_base'] = incr
+    def decr(E, st, fr, I, A):
+        x = A[0]
+        if is_sym(x): raise Unsupported('symbolic tree node')
+        if color(E, st, x) == RED and g(E, st, g(E, st, x, P), P) == x: return g(E, st, x, R_)
+        if g(E, st, x, L):
+            y = g(E, st, x, L)
+            while g(E, st, y, R_): y = g(E, st, y, R_)
+            return y
+        y = g(E, st, x, P)
+        while x == g(E, st, y, L): x = y; y = g(E, st, y, P)
+        return y
+    E.stubs['_ZSt18_Rb_tree_decrementPSt18_Rb_tree_node_base'] = decr
+    E.stubs['_ZSt18_Rb_tree_decrementPKSt18_Rb_tree_node_base'] = decr
